@@ -22,6 +22,7 @@ import EEM.Model.History
 import EEM.Model.HourlyPrep
 import EEM.Model.Refine
 import EEM.Model.Resample
+import EEM.Model.TempAgg
 
 open EEM EEM.Proto EEM.Model
 
@@ -606,6 +607,24 @@ def opResample (args : List String) : String :=
     | _, _ => "bad-op"
   | _ => "bad-op"
 
+/-- `tempagg <hourly|inst_divided|inst> <b0,b1,...> <t:num/den|t:nan ...>` -/
+def opTempAgg (args : List String) : String :=
+  match args with
+  | mode :: bounds :: reads =>
+    match (bounds.splitOn ",").mapM String.toInt?, reads.mapM parseReading with
+    | some bs, some rs =>
+      let showO : Option Rat → String := fun | some r => showRat r | none => "none"
+      match mode with
+      | "hourly" => "ok " ++ " ".intercalate ((Model.TempAgg.hourlyDaily bs rs).map fun a =>
+          s!"{a.notNull},{a.null},{showO a.temp}")
+      | "hourly_billing" => "ok " ++ " ".intercalate ((Model.TempAgg.hourlyDailyBilling bs rs).map fun a =>
+          s!"{a.notNull},{a.null},{showO a.temp}")
+      | "inst_divided" => "ok " ++ " ".intercalate ((Model.TempAgg.instDaily true rs bs).map showO)
+      | "inst" => "ok " ++ " ".intercalate ((Model.TempAgg.instDaily false rs bs).map showO)
+      | _ => "bad-op"
+    | _, _ => "bad-op"
+  | _ => "bad-op"
+
 def step (line : String) : String :=
   match words line with
   | "submodel" :: args => opPredictSubmodel args
@@ -616,6 +635,7 @@ def step (line : String) : String :=
   | "smooth" :: args => opSmooth args
   | "refine" :: args => opRefine args
   | "resample" :: args => opResample args
+  | "tempagg" :: args => opTempAgg args
   | "getk" :: args => opGetK args
   | "segrow" :: args => opSegRow args
   | "contribs" :: args => opContribs args
